@@ -83,6 +83,12 @@ core.REACTOR = core.SimReactor()
 _main.installReactor(core.REACTOR)
 REACTOR = core.REACTOR
 
+# keep Twisted from printing buffered log failures to stderr
+from twisted.logger import globalLogBeginner  # noqa: E402
+
+globalLogBeginner.beginLoggingTo([lambda e: None], redirectStandardIO=False,
+                                 discardBuffer=True)
+
 # -- crypto randomness ---------------------------------------------------------
 import nacl.utils  # noqa: E402
 
@@ -195,9 +201,3 @@ def new_run(seed):
     SIMTIME._last = 0.0
     # restart serial numbering so hashes do not depend on earlier runs
     _serials = itertools.count(1)
-    _reset_serials()
-
-
-def _reset_serials():
-    # _serial_hash closes over the module global, so rebinding is enough
-    pass
